@@ -20,7 +20,7 @@ echo "seed $ID: demo clean exit=$A, demo patched exit=$B, suite patched: $T"
 RES=""
 for P in "$@"; do
   OUT=$(cd /verif && VERIF_REPO=$WT bin/check $P 2>&1); RC=$?
-  echo "--- check $P on seeded tree: exit=$RC"; echo "$OUT" | grep -E "VIOLATION|failed obligation|CHECKER|UNDECIDED|property " | head -8
+  echo "--- check $P on seeded tree: exit=$RC"; echo "$OUT" | grep -E "VIOLATION|failed obligation|CHECKER|UNDECIDED|property " | head -24
   RES="$RES $P:$RC"
 done
 echo "RESULT $ID: clean=$A patched=$B tests=[$T] checks=$RES" | tee -a $DST/result.txt
